@@ -258,6 +258,14 @@ def audit(ctx, proofs_built):
             ctx.broken.append(('audit', '%s: axioms %r' % (full, ax)))
     if not names:
         ctx.broken.append(('audit', 'no theorems in ' + p.lean_module))
+    # thorough tier: the toolchain's independent re-checker replays the compiled module (and what it imports) through the kernel
+    if ctx.tier == 'thorough':
+        rc, out, dt = sh(['lake', 'env', 'leanchecker', p.lean_module], cwd=LEAN, timeout=1800)
+        ok = rc == 0
+        ctx.obligations.append(dict(name='leanchecker ' + p.lean_module, kind='recheck', ok=ok))
+        ctx.cov['leanchecker_s'] = round(dt, 1)
+        if not ok:
+            ctx.broken.append(('audit', 'leanchecker rejects %s: %s' % (p.lean_module, out[-300:])))
 
 
 # ----------------------------------------------------------------------------------------------------------
